@@ -351,8 +351,8 @@ def main():
     run = Run(PID, a.tier)
     thorough = a.tier == "thorough"
     sgs = ["sg13", "sg13-verify"] + (["sg199", "sg7", "sg7-verify"] if thorough else [])
-    prods = ["prod-san", "cfg-int64-noasm-w8-c22", "prod-verify"] + (
-        ["cfg-i128struct-noasm-w2-c2", "cfg-i128-noasm-w8-c2", "cfg-int64-san-w15", "cfg-int64-noasm-w2-c86-clang"] if thorough else [])
+    prods = ["prod-san", "cfg-int64-noasm-w8-c22", "prod-verify", "cfg-i128struct-noasm-w2-c2"] + (
+        ["cfg-i128-noasm-w8-c2", "cfg-int64-san-w15", "cfg-int64-noasm-w2-c86-clang"] if thorough else [])
     B.build_many(sgs + prods)
     for b in sgs + prods:
         run.cov["builds"][b] = B.source_hash()[:16]
